@@ -17,6 +17,7 @@ func runC07(c *Check, tier string) {
 	c.Decides = "a file can appear under a final cache key only by os.Rename of a file obtained from os.CreateTemp in the same directory, after the content copy and Close returned nil, and the final path is never opened for writing; only the fs backend (plus the locker, `clean` and the per-target logs) creates or renames files under the grog root; the result is written after its blobs (R01d); the digest and the bytes handed to a CAS write come from the same path / byte slice; the 'exists' memo is set only after a successful write or a positive backend answer; no first-party reader manufactures io.EOF; a remote blob enters the local tier only whole (read-through fill with the complete remote stream; a failed copy into a pipe closes it with the error); cache entries are never linked into the workspace."
 	c.NotDec = "interleavings with a concurrent process, fsync/power loss, TOCTOU between hashing and uploading a file that is still changing, remote-side atomicity."
 	ruleR07a(c)
+	ruleStreamErrorIsNotEOF(c, "R07t", "caching", "output/handlers")
 	ruleR07b(c, "R07b")
 	ruleR01d(c, "R07c")
 	ruleR07d(c)
@@ -531,10 +532,10 @@ func pairedDigest(c *Check, fn *ssa.Function, digest, reader ssa.Value, hashers 
 		}
 		if call, _ := engine.CallOf(o); call != nil && calleeInSet(c, call, hashers) {
 			a := call.Common().Args[len(call.Common().Args)-1]
-			if bytesArg != nil && (sameVar(a, bytesArg) || engine.ExprKey(a) == engine.ExprKey(bytesArg)) {
+			if bytesArg != nil && (sameVar(a, bytesArg) || engine.ExprKey(a) == engine.ExprKey(bytesArg) || shareOrigin(a, bytesArg)) {
 				continue
 			}
-			if openArg != nil && (sameVar(a, openArg) || engine.ExprKey(a) == engine.ExprKey(openArg)) {
+			if openArg != nil && (sameVar(a, openArg) || engine.ExprKey(a) == engine.ExprKey(openArg) || shareOrigin(a, openArg)) {
 				continue
 			}
 			return false, "the hashed source differs from the uploaded source"
@@ -702,6 +703,48 @@ func ruleR07e(c *Check, rule string) {
 			continue
 		}
 		check(s, 0)
+	}
+	// the memo as a small type of its own (a mutex-protected set with an add method): the writes are the
+	// calls, on a field of caching.Cas, of the methods of that type that insert into its table
+	if t := c.P.Type("caching", "Cas"); t != nil {
+		if st, ok := t.Underlying().(*types.Struct); ok {
+			for i := 0; i < st.NumFields(); i++ {
+				ft := engine.NamedOf(st.Field(i).Type())
+				if ft == nil || ft.Obj().Pkg() == nil || !engine.IsFirstParty(ft.Obj().Pkg().Path()) {
+					continue
+				}
+				if _, isStruct := ft.Underlying().(*types.Struct); !isStruct {
+					continue
+				}
+				tkey := engine.TypeKey(ft)
+				for _, m := range c.P.Funcs {
+					if m.Signature.Recv() == nil || engine.TypeKey(m.Signature.Recv().Type()) != tkey {
+						continue
+					}
+					inserts := false
+					for _, b := range m.Blocks {
+						for _, in := range b.Instrs {
+							switch x := in.(type) {
+							case *ssa.MapUpdate:
+								inserts = true
+							case *ssa.Call:
+								if nme := engine.CalleeName(x); nme == "(*sync.Map).Store" || nme == "(*sync.Map).LoadOrStore" {
+									inserts = true
+								}
+							}
+						}
+					}
+					if !inserts {
+						continue
+					}
+					for _, cs := range c.G.CallersOf(m) {
+						if top := engine.TopFunc(cs.Parent()); top.Signature.Recv() != nil && engine.TypeKey(top.Signature.Recv().Type()) == "caching.Cas" {
+							check(cs, 0)
+						}
+					}
+				}
+			}
+		}
 	}
 	if n == 0 {
 		c.Unknown(rule, "memo-after-success", "no writes to the exists-memo found", "-")
@@ -913,4 +956,17 @@ func ruleUploadLoopComplete(c *Check, rule string) {
 	if n == 0 {
 		c.Unknown(rule, "upload-loop-complete", "no loop that starts CAS writes found in the output handlers", "-")
 	}
+}
+
+// shareOrigin: the two values have the same single definition (a value that travelled through a result object
+// of a helper resolves to what the helper stored there).
+func shareOrigin(a, b ssa.Value) bool {
+	oa, ob := engine.Origins(a), engine.Origins(b)
+	if len(oa) != 1 || len(ob) != 1 || oa[0] == nil {
+		return false
+	}
+	if _, isConst := oa[0].(*ssa.Const); isConst {
+		return false
+	}
+	return oa[0] == ob[0]
 }
